@@ -58,6 +58,8 @@ fn my_tid() -> u32 {
 /// Contention mode: every call fails at once with this errno (0 = off; negative = every call succeeds at once) without taking the lock or logging; only the
 /// number of attempts and their byte total are counted. Used to make many threads hammer a sink's own bookkeeping.
 pub static FAST_FAIL_ERRNO: std::sync::atomic::AtomicI32 = std::sync::atomic::AtomicI32::new(0);
+/// sendto calls on this descriptor succeed without entering the kernel (still logged); -1 = off
+pub static FAKE_OK_FD: std::sync::atomic::AtomicI32 = std::sync::atomic::AtomicI32::new(-1);
 pub static FAST_ATTEMPTS: std::sync::atomic::AtomicU64 = std::sync::atomic::AtomicU64::new(0);
 pub static FAST_BYTES: std::sync::atomic::AtomicU64 = std::sync::atomic::AtomicU64::new(0);
 
@@ -101,6 +103,8 @@ pub unsafe extern "C" fn sendto(fd: i32, buf: *const u8, len: usize, flags: i32,
         }
     };
     let (result, errno, scripted) = match injected {
+        // a destination that this sandbox cannot reach (another host): "accepted by the kernel" without entering it
+        None if FAKE_OK_FD.load(std::sync::atomic::Ordering::Relaxed) == fd => (len as isize, 0, false),
         Some(e) => {
             *__errno_location() = e;
             (-1isize, e, true)
